@@ -5,7 +5,10 @@ multiplication without / with the complete-arithmetic option, joint and multi sc
 domain rules for consistency and enumerates method x operands x scalar class x option.  Every in-domain case is
 replayed on the real gadgets (short Weierstrass curves over emulated fields: secp256k1, BN254, BLS12-381, BW6-761,
 P-256, P-384; the native twisted Edwards companion of BN254) and compared with the native [expected]G; [expected+1]G must
-be rejected.  Cases that can hang the decomposition hints are run one per process under a timeout."""
+be rejected.  Cases that can hang the decomposition hints are run one per process under a timeout.
+ToySig.tla writes ECDSA and EdDSA out over toy groups (every key, nonce, message enumerated by TLC) and decides, per edit
+class of a genuine signature (s -> n-s, zero / incremented / swapped components, other message, other key, non-canonical
+S), whether it must be accepted; every class is replayed on the real signature gadgets and the native libraries."""
 import json
 import os
 import subprocess
@@ -59,7 +62,9 @@ def run(ctx):
         'points are small multiples of the generator and their opposites; scalars are 0..3, r-1, r, r+1 (r and r+1 as non-canonical limbs)',
         'outside a method\'s documented domain the result is unspecified and the case is not judged',
         'the test engine evaluates the gadget code on the BN254 scalar field',
-        'not covered: pairings, ECDSA / EdDSA and the EVM precompile wrappers (see DESIGN.md 11.2)',
+        'signatures: the edit classes of ToySig.tla on ECDSA (secp256k1, P-256, P-384) and EdDSA (BN254, BLS12-381, BLS12-377, BW6-761 companions); non-canonical ECDSA components are not expressible as gadget witnesses',
+        'dishonest hints: the decomposition / result hints of ScalarMul (native twisted Edwards, emulated short Weierstrass with complete arithmetic) replaced by the strategies of FakeGLV.tla, through the real Groth16 prover',
+        'not covered: pairings and the EVM precompile wrappers (see DESIGN.md 11.2)',
     ]
     r = ctx.tlc('CurveOps', 'CurveOps.cfg', workers=1, timeout=900)
     cases = r.beh
@@ -96,8 +101,111 @@ def run(ctx):
             ctx.case(key='%s %s' % (fam, desc(c)), nontrivial=c['p'] == 0 or c['q'] == 0 or c['s'] not in ('2', '3'))
             ctx.traces += rr['runs']
             judge(ctx, fam, c, rr)
+    signatures(ctx, quick)
+    hint_adversaries(ctx, quick)
     ctx.sample(cases[5])
     ctx.sample(cases[300])
+
+
+def hint_adversaries(ctx, quick):
+    """FakeGLV.tla: what the in-circuit checks of a hinted scalar multiplication bind when the prover chooses every hint
+    output (three designs: relation checked in the native field with a free k / modulo the group order / with a special-case
+    bypass derived from the hinted point); the winning strategies TLC finds are replayed on the real gadgets through the
+    real Groth16 prover and verifier."""
+    r = ctx.tlc('FakeGLV', 'FakeGLV.cfg', workers=1, timeout=600)
+    designs = {x['design']: x for x in r.beh}
+    if set(designs) != {'native', 'modL', 'bypass'} or not designs['modL']['sound']:
+        raise vlib.Infra('FakeGLV.tla: unexpected designs %s' % designs)
+    cases = []
+
+    def add(gadget, strategy, scalar, claim, expect):
+        cases.append({'id': len(cases), 'gadget': gadget, 'strategy': strategy, 'scalar': scalar, 'claim': claim, 'expect': expect})
+    sws = ['sw-secp256k1', 'sw-p256'] if quick else ['sw-secp256k1', 'sw-p256', 'sw-bn254', 'sw-bls12381', 'sw-p384']
+    for sc in (['3'] if quick else ['3', '2', 'r-1', 'r+1']):
+        add('te-bn254', 'honest', sc, 'right', 'satisfiable')
+        add('te-bn254', 'honest', sc, 'wrong', 'unsatisfiable')
+        add('te-bn254', 'zeroDecomp', sc, 'wrong', 'unsatisfiable')
+        add('te-bn254', 'unitDecomp', sc, 'wrong', 'unsatisfiable')
+    for g in sws:
+        add(g, 'honest', '2', 'right', 'satisfiable')
+        add(g, 'honest', '2', 'wrong', 'unsatisfiable')
+        add(g, 'honest', '0', 'right', 'satisfiable')
+        add(g, 'zeroScalarResult', '0', 'wrong', 'unsatisfiable')
+        add(g, 'zeroScalarResult', '2', 'wrong', 'unsatisfiable')
+        add(g, 'unitResult', '2', 'wrong', 'unsatisfiable')
+        if not quick:
+            add(g, 'zeroScalarResult', 'r', 'wrong', 'unsatisfiable')
+            add(g, 'unitResult', 'r-1', 'wrong', 'unsatisfiable')
+    res = ctx.harness(['curvehints', '--par', '12'], cases, timeout=3600)
+    if len(res) != len(cases):
+        raise vlib.Infra('short hint-adversary replay')
+    ok_honest = 0
+    for rr in res:
+        c = cases[rr['id']]
+        if rr.get('err'):
+            raise vlib.Infra('hint adversary %s: %s' % (c, rr['err']))
+        name = 'scalar multiplication %s strategy=%s scalar=%s claim=%s' % (c['gadget'], c['strategy'], c['scalar'], c['claim'])
+        ctx.case(key=name, nontrivial=c['strategy'] != 'honest' or c['scalar'] not in ('2', '3'))
+        ctx.traces += 1
+        if c['strategy'] == 'honest':
+            if rr['solve'] != c['expect'] or (c['expect'] == 'satisfiable' and rr.get('proof') != 'verifies'):
+                # the honest baseline must behave, otherwise the adversarial runs say nothing
+                raise vlib.Infra('honest baseline broken: %s -> %s' % (name, rr))
+            ok_honest += 1
+        elif rr['solve'] == 'satisfiable' and rr.get('proof') == 'verifies':
+            ctx.report('scalar multiplication hints %s strategy=%s scalar=%s: a wrong result is provable (the Groth16 proof verifies)'
+                       % (c['gadget'], c['strategy'], c['scalar']), {'case': c, 'result': rr, 'model': designs})
+    if ok_honest < 4:
+        raise vlib.Infra('honest baselines: %d' % ok_honest)
+    ctx.extra['hint_adversary_cases'] = len(cases)
+
+
+ECDSA_FAMILIES = ['secp256k1', 'p256', 'p384']
+EDDSA_FAMILIES = ['bn254', 'bls12-381', 'bls12-377', 'bw6-761']
+
+
+def signatures(ctx, quick):
+    """ToySig.tla: ECDSA / EdDSA over toy groups, every key x nonce x message enumerated by TLC, decides per edit class
+    whether the edited signature must be accepted; the classes are replayed on the real gadgets and on the native library."""
+    r = ctx.tlc('ToySig', 'ToySig.cfg', workers=1, timeout=600)
+    rows = r.beh
+    if len(rows) < 15 or not all(x['expect'] in ('accept', 'reject') for x in rows):
+        raise vlib.Infra('ToySig produced %d rows' % len(rows))
+    if not any(x['class'] == 'sNeg' and x['expect'] == 'accept' for x in rows):
+        raise vlib.Infra('ToySig: the (r, n-s) class is missing')
+    seeds = 2 if quick else 8
+    cases = []
+    for x in rows:
+        fams = ECDSA_FAMILIES if x['scheme'] == 'ecdsa' else EDDSA_FAMILIES
+        if quick:
+            fams = fams[:2]
+        for fam in fams:
+            for k in range(seeds):
+                cases.append({'id': len(cases), 'scheme': x['scheme'], 'family': fam, 'class': x['class'], 'expect': x['expect'],
+                              'seed': ctx.seed * 1000 + k})
+    res = ctx.harness(['sigreplay', '--par', '16'], cases, timeout=3600)
+    if len(res) != len(cases):
+        raise vlib.Infra('short signature replay')
+    judged = 0
+    for rr in res:
+        c = cases[rr['id']]
+        if (rr.get('err') or '').startswith('INFRA'):
+            raise vlib.Infra(rr['err'])
+        if rr['native'] == 'inexpressible':
+            continue
+        judged += 1
+        name = '%s %s class=%s' % (c['scheme'], c['family'], c['class'])
+        ctx.case(key=name + ' seed=%d' % c['seed'], nontrivial=c['class'] != 'genuine')
+        ctx.traces += 1
+        if rr['native'] != c['expect']:
+            # the oracle disagrees with the specification: not a statement about the gadget
+            raise vlib.Infra('native library and ToySig.tla disagree on %s: %s vs %s' % (name, rr['native'], c['expect']))
+        if rr['circuit'] != rr['native']:
+            ctx.report('signature gadget %s: native verifier %ss, in-circuit verifier %ss' % (name, rr['native'], rr['circuit']),
+                       {'case': c, 'result': rr})
+    if judged < len(cases) // 2:
+        raise vlib.Infra('only %d signature cases judged' % judged)
+    ctx.extra['signature_cases_judged'] = judged
 
 
 def judge(ctx, fam, c, rr):
